@@ -53,6 +53,9 @@ def run(ck: Checker, prog: Program, tier: str):
     from . import c12
     with ck.borrow(c12, "C08.R3+"):
         ck.guard(c12._r5, ck, prog.func(c12.R))
+    from . import c20
+    with ck.borrow(c20, "C08.R2+"):
+        ck.guard(c20._read_only, ck, prog)          # drawing a result leaves its peak masks as they were (absent peaks stay absent)
     with ck.borrow(c12, "C08.R3+"):
         ck.guard(c12._meta_private, ck, prog)       # the search range stored with the object is the object's own record
     from . import c05
